@@ -54,7 +54,14 @@ def setup_state(eng: Engine, contract: Contract, fi):
         args[n] = v
     if a.vararg or a.kwarg:
         raise Unsupported("*args/**kwargs in verified function")
+    if self_ref is not None:
+        for via, back in getattr(eng.reg.shapes[contract.shape], "backrefs", ()):
+            other = eng.heap_read(st, self_ref, via)
+            st.heap[(other.oid, back)] = self_ref
+            st.old_heap[(other.oid, back)] = self_ref
     st.ghost["$args"] = args
+    if getattr(contract, "yield_hook", None):
+        st.ghost["$yield_hook"] = contract.yield_hook
     if contract.generator is not None:
         ety = contract.generator
         st.ghost["$out_set"] = Val(SetT(ety).empty(), SetT(ety))
@@ -78,6 +85,24 @@ def check_exit(eng: Engine, contract: Contract, kind, st: State, val, self_ref, 
                  or (not exc.exact and eng.exc_is_subclass(c.raises, exc.cls))]
         label = f"raises:{exc.cls}"
         if not cases:
+            splits = getattr(contract, "exit_splits", None)
+            if splits:
+                # one obligation per value combination of the split terms: a listed known finding then covers
+                # exactly its own combination and every other one is still a VIOLATION
+                combos = [([], [])]
+                for sname, sfn, sty in splits:
+                    term = sfn(ctx)
+                    if term is None:
+                        continue
+                    vals = [(m, sty.const(m)) for m in sty.members] if hasattr(sty, "members") else [("True", z3.BoolVal(True)), ("False", z3.BoolVal(False))]
+                    combos = [(ls + [f"{sname}={m}"], cs + [term == v]) for ls, cs in combos for m, v in vals]
+                for ls, cs in combos:
+                    s2 = st.fork()
+                    for cnd in cs:
+                        s2.assume(cnd)
+                    eng.oblige(s2, z3.BoolVal(False), f"{label}:undeclared-exception[{','.join(ls)}]", "raises",
+                               detail=f"exception {exc.cls} escapes but no contract case declares it")
+                return
             eng.oblige(st, z3.BoolVal(False), f"{label}:undeclared-exception", "raises",
                        detail=f"exception {exc.cls} escapes but no contract case declares it")
             return
@@ -153,7 +178,8 @@ def verify_function(src: Source, reg: Registry, contract: Contract, prefix: str,
         for o in contract.loops:
             if o >= len(eng.loop_ordinals):
                 raise Unsupported(f"contract names loop {o} but the function has {len(eng.loop_ordinals)} loops")
-        eng.step_hooks = list(step_hooks or [])
+        eng.step_hooks = list(step_hooks or []) + list(getattr(contract, "step_hooks", []) or [])
+        eng.T = getattr(reg, "T", None)
         eng.trace_fields = tuple(getattr(contract, "trace_fields", ()))
         st, self_ref, args = setup_state(eng, contract, fi)
         eng.self_ref = self_ref
